@@ -8,7 +8,23 @@
 //!                the victim.  Model ops (driver `c06justice`):
 //!                  commit <n> <htlc,…|->   secret <n>      (replayed from the victim's REAL ChannelMonitorUpdates)
 //!                  confirm <n> <out,…> <v+v,…|->   → the outpoints the victim's broadcasts spend (sorted)
-//!                Implementation oracles (no model): every broadcast verifies under libbitcoinconsensus against the
+//!                  chain <tip> <n> <out,…> <v+v,…|->  start of the chain model (Model/JusticeChain.lean): EVERY second-stage tx the cheater holds
+//!                  conn <C|S<k>|J<outpoint>+…,…|->     a block is connected          → `claimable_outpoints` as `outpoint@creation_height …`
+//!                  disc <newTip>                        blocks are disconnected       → the same        (hook `monitor_claims_view`)
+//!                  rebc | reload                        rebroadcast_pending_claims / monitor + manager written and read back
+//!                After the revoked commitment (and a subset of the second-stage txs) confirmed: 0–3 REORGS with the fork point above every
+//!                tracked tx / below the victim's confirmed justice tx / below the second-stage txs / below the commitment (never below a tx
+//!                that has had ANTI_REORG_DELAY confirmations), the other branch re-including the cheater's / the victim's transactions or not
+//!                (at the same, a later or an EARLIER height), every ConnectStyle in turn (the Listen-based `blocks_disconnected`, per-block and
+//!                skipping `best_block_updated`, `transaction_unconfirmed`-only), reloads between the steps, the commitment confirming 20–45
+//!                blocks late in a quarter of the scenarios.  Before the final drain the mempool FORGETS every earlier victim broadcast, so
+//!                the outputs are recovered only if the claims are re-issued (height timers / rebroadcast_pending_claims).
+//!                Implementation oracles (no model): after every step, every revoked output that exists unspent on the best chain has a
+//!                registered claim with a pending request (or is parked in locktimed_packages), recorded with its parent's confirmation
+//!                height, broadcast at least once, and re-issued within LOW_FREQUENCY_BUMP_INTERVAL of the last timer-setting issue; after
+//!                the eviction every such output is spent by what rebroadcast_pending_claims / the timers emit; after the drain and CSV + 1
+//!                more blocks no revoked output is left for the cheater; SpendableOutputs + fees = claimed value; balances drain;
+//!                every broadcast verifies under libbitcoinconsensus against the
 //!                outputs it spends; every output of the revoked transaction except the victim's own to_remote and
 //!                anchors is spent by a broadcast (or its confirmed second-stage child is); re-issued claims never
 //!                lower their fee; after burial SpendableOutputs appear, their value + fees = value claimed, and
@@ -75,6 +91,8 @@ fn hist_show() -> String { HIST.with(|h| h.borrow().join("; ")) }
 
 const LOW_FREQUENCY_BUMP_INTERVAL: u32 = 15;
 /// candidate finding (see tools/cfg/C06.py `findings`): every oracle message of a scenario that ran into it carries this text
+/// Only the symptoms of that defect are tagged (claim lost / nothing rebroadcast / cheater can spend / balance left, for outputs of a
+/// transaction re-confirmed lower under TransactionsFirstReorgsOnlyTip); every other failure of the same scenario stays untagged.
 const KF1: &str = "KF-C06-1 justice claim lost after its parent transaction was re-confirmed at a LOWER height through the Confirm interface (transaction_unconfirmed, then transactions_confirmed before best_block_updated): the re-confirmation is ignored as already registered, claimable_outpoints keeps the old higher creation height, and the next best_block_updated below it drops the claim although the parent is confirmed";
 /// `on_counterparty_tx_csv` of the test channel configs (`our_to_self_delay` = BREAKDOWN_TIMEOUT)
 const CSV: u32 = lightning::ln::channelmanager::BREAKDOWN_TIMEOUT as u32;
@@ -105,8 +123,14 @@ struct Ctx {
 	/// transactions that have had ANTI_REORG_DELAY confirmations at some point: final (the library's re-org assumption), never disconnected again
 	final_txs: BTreeSet<Txid>,
 	/// highest height at which each of the cheater's transactions was ever confirmed / those now confirmed lower than that
-	max_conf: BTreeMap<Txid, u32>, kf1: bool,
-	fork_id: u32, stream: Stream, oracle: Vec<String>, soft: Vec<String>, soft_kinds: BTreeSet<&'static str>, classes: Vec<String>, stale_seen: u32,
+	max_conf: BTreeMap<Txid, u32>,
+	/// outputs matching the delivery pattern of KF-C06-1: `transaction_unconfirmed(parent)`, then `transactions_confirmed` of the parent at a
+	/// LOWER height before `best_block_updated` (style TransactionsFirstReorgsOnlyTip), after which their claim is gone
+	kf1: BTreeSet<OutPoint>, kf1_style: bool,
+	/// while a multi-block disconnection is delivered block by block the handler may re-issue a resurrected claim at any intermediate
+	/// height (its timer counts from there): issues seen during a disconnection are dated at the old tip
+	issue_height_override: Option<u32>,
+	fork_id: u32, stream: Stream, oracle: Vec<String>, soft: Vec<String>, soft_kinds: BTreeSet<(&'static str, bool)>, classes: Vec<String>, stale_seen: u32,
 }
 
 impl Ctx {
@@ -118,8 +142,14 @@ impl Ctx {
 	fn name(&self, op: &OutPoint) -> String { self.tag(op).map(|t| Self::show_tag(&t)).unwrap_or_else(|| format!("{}", op)) }
 	fn is_victim_tx(&self, id: &Txid) -> bool { self.bcast.iter().any(|(_, t)| t.compute_txid() == *id) }
 	/// recorded once per kind; the scenario goes on (what finally matters is whether the output is recovered)
-	fn fail_soft(&mut self, kind: &'static str, what: String) { let what = if self.kf1 { format!("{}: {}", KF1, what) } else { what }; if self.soft_kinds.insert(kind) { let m = format!("{} — history (seed {}, {}): {}", what, self.seed, self.style, hist_show()); self.soft.push(m); } }
-	fn fail(&mut self, what: String) { let what = if self.kf1 { format!("{}: {}", KF1, what) } else { what }; let m = format!("{} — history (seed {}, {}): {}", what, self.seed, self.style, hist_show()); if self.oracle.len() < 6 { self.oracle.push(m); } }
+	fn fail_soft(&mut self, kind: &'static str, what: String) { self.fail_soft_for(kind, None, what) }
+	/// `about`: the outpoint the message is about; tagged as KF-C06-1 only if that outpoint matches the finding's delivery pattern
+	fn fail_soft_for(&mut self, kind: &'static str, about: Option<&OutPoint>, what: String) {
+		let tagged = about.map(|x| self.kf1.contains(x)).unwrap_or(false);
+		let what = if tagged { format!("{}: {}", KF1, what) } else { what };
+		if self.soft_kinds.insert((kind, tagged)) { let m = format!("{} — history (seed {}, {}): {}", what, self.seed, self.style, hist_show()); self.soft.push(m); } }
+	fn fail_for(&mut self, about: &OutPoint, what: String) { let what = if self.kf1.contains(about) { format!("{}: {}", KF1, what) } else { what }; self.fail(what) }
+	fn fail(&mut self, what: String) { let m = format!("{} — history (seed {}, {}): {}", what, self.seed, self.style, hist_show()); if self.oracle.len() < 6 { self.oracle.push(m); } }
 	/// model token of a transaction in a block: `C`, `S<k>`, `J<op>+<op>…`
 	fn tx_tok(&self, t: &Transaction) -> String {
 		let id = t.compute_txid();
@@ -161,7 +191,10 @@ impl Ctx {
 			// left the funding output unspent; it never confirms here (the cheater's transaction is re-mined first)
 			if t.input.len() == 1 && t.input[0].previous_output == self.funding { self.classes.push("own-commitment-broadcast-while-revoked-one-unconfirmed".into()); if conf.get(&self.revoked_txid).map(|h| *h < tip).unwrap_or(false) { self.fail("victim broadcasts its own commitment although the revoked one is confirmed below the tip".into()); } continue; }
 			let mut unrelated = false;
-			for i in &t.input { if self.tag(&i.previous_output).is_none() { unrelated = true; } self.last_issue.insert(i.previous_output, tip); }
+			// `rebroadcast_pending_claims` re-issues without touching the request's height timer: the timer deadline below counts from the
+			// last issue that SET the timer (registration, a bump at timer expiry, a split, a resurrection in blocks_disconnected)
+			let sets_timer = op.as_deref() != Some("rebc");
+			for i in &t.input { if self.tag(&i.previous_output).is_none() { unrelated = true; } if sets_timer || !self.last_issue.contains_key(&i.previous_output) { self.last_issue.insert(i.previous_output, self.issue_height_override.unwrap_or(tip)); } }
 			if unrelated { self.fail(format!("victim broadcast {} spends an unrelated outpoint", t.compute_txid())); continue; }
 			if let Err(e) = t.verify(|op| self.prevouts.get(op).cloned()) { self.fail(format!("justice tx {} (inputs {}) fails consensus verification: {:?}", t.compute_txid(), self.tx_tok(&t), e)); }
 			let mut key: Vec<OutPoint> = t.input.iter().map(|i| i.previous_output).collect(); key.sort();
@@ -180,6 +213,7 @@ impl Ctx {
 			SpendableOutputDescriptor::DelayedPaymentOutput(d) => { self.spendable.insert(d.outpoint.into_bitcoin_outpoint(), d.output.value.to_sat()); },
 		} } } }
 		let (claimable, locktimed) = match node.chain_monitor.chain_monitor.get_monitor(self.chan_id) { Ok(mon) => { let (c, l, _, _) = vh::monitor_claims_view(&mon); (c, l) }, Err(_) => { self.fail("victim monitor disappeared".into()); return; } };
+		if !locktimed.is_empty() && !self.classes.iter().any(|c| c.starts_with("resurrected-claim-parked")) { self.classes.push(format!("resurrected-claim-parked-in-locktimed_packages:{}", if self.lax { "txonly" } else { "full" })); }
 		// ---- the claim bookkeeping as the model sees it: `outpoint@creation_height` of every entry whose parent is on the best chain
 		let mut line: BTreeSet<((u8, u32, u32), u32)> = BTreeSet::new();
 		for (o, created, _) in claimable.iter() { match self.tag(o) {
@@ -196,18 +230,18 @@ impl Ctx {
 			if spent.contains_key(&x) { continue; }
 			let parked = locktimed.iter().any(|l| l.0 == x);
 			// the signature of KF-C06-1: txonly style, the parent is now confirmed below an earlier confirmation, the claim is gone
-			if self.lax && !parked && claimable.iter().find(|c| c.0 == x).map(|c| !c.2).unwrap_or(true) && self.max_conf.get(&x.txid).map(|m| *m > ph).unwrap_or(false) { self.kf1 = true; }
+			if self.kf1_style && !parked && claimable.iter().find(|c| c.0 == x).map(|c| !c.2).unwrap_or(true) && self.max_conf.get(&x.txid).map(|m| *m > ph).unwrap_or(false) { self.kf1.insert(x); }
 			match claimable.iter().find(|c| c.0 == x) {
-				None => { if !parked { self.fail_soft("no-claim", format!("revoked output {} of confirmed tx {} (height {}) is unspent on the best chain (tip {}) but no claim for it is pending", self.name(&x), x.txid, ph, tip)); continue; } },
+				None => { if !parked { self.fail_soft_for("no-claim", Some(&x), format!("revoked output {} of confirmed tx {} (height {}) is unspent on the best chain (tip {}) but no claim for it is pending", self.name(&x), x.txid, ph, tip)); continue; } },
 				Some((_, created, pending)) => {
-					if !*pending && !parked { self.fail_soft("no-request", format!("revoked output {} (parent confirmed at {}) is unspent on the best chain (tip {}) and still registered, but its claim request is gone: nothing will be rebroadcast for it", self.name(&x), ph, tip)); continue; }
+					if !*pending && !parked { self.fail_soft_for("no-request", Some(&x), format!("revoked output {} (parent confirmed at {}) is unspent on the best chain (tip {}) and still registered, but its claim request is gone: nothing will be rebroadcast for it", self.name(&x), ph, tip)); continue; }
 					if !self.lax && *created != ph { self.fail_soft("creation-height", format!("claim on revoked output {} records creation height {} but its parent transaction is confirmed at height {} (tip {})", self.name(&x), created, ph, tip)); }
 				},
 			}
 			match self.last_issue.get(&x) {
 				None => { self.fail_soft("never-broadcast", format!("claim on revoked output {} (parent confirmed at {}) was never broadcast (tip {})", self.name(&x), ph, tip)); },
 				Some(li) => if tip > li + LOW_FREQUENCY_BUMP_INTERVAL { if self.unbumpable(&x) { self.classes.push("window:exempt-unbumpable".into()); } else {
-					self.fail_soft("window", format!("claim on revoked output {} was last issued at height {} and not re-issued by height {} (> LOW_FREQUENCY_BUMP_INTERVAL)", self.name(&x), li, tip)); } },
+					self.fail_soft("window", format!("claim on revoked output {} last had its height timer set at height {} and was not re-issued by height {} (> LOW_FREQUENCY_BUMP_INTERVAL later)", self.name(&x), li, tip)); } },
 			}
 		}
 	}
@@ -238,7 +272,9 @@ impl Ctx {
 		disconnect_blocks(node, depth);
 		self.fork_id += 1; self.disconnected_once = true;
 		self.last_fee.clear();   // a claim regenerated after its parent re-confirms starts from a fresh feerate
+		self.issue_height_override = Some(new_tip + depth);
 		self.after(net, Some(format!("disc {}", new_tip)), class);
+		self.issue_height_override = None;
 	}
 	fn rebroadcast(&mut self, net: &Net) {
 		hist_push("rebroadcast_pending_claims".into());
@@ -339,7 +375,7 @@ impl Ctx {
 			let (tip, conf, spent) = chain_view(&net.nodes[0]);
 			for (x, ph) in self.revocable(&conf) { if !spent.contains_key(&x) && !self.bcast[self.evicted..].iter().any(|(_, t)| t.input.iter().any(|i| i.previous_output == x)) {
 				if self.unbumpable(&x) { self.classes.push("rebroadcast:exempt-unbumpable".into()); continue; }
-				self.fail_soft("no-rebroadcast", format!("revoked output {} of confirmed tx {} (height {}) is unspent on the best chain (tip {}) but nothing is rebroadcast for it (rebroadcast_pending_claims{})", self.name(&x), x.txid, ph, tip, if by_timer { " and 16 blocks of height timers" } else { "" })); } }
+				self.fail_soft_for("no-rebroadcast", Some(&x), format!("revoked output {} of confirmed tx {} (height {}) is unspent on the best chain (tip {}) but nothing is rebroadcast for it (rebroadcast_pending_claims{})", self.name(&x), x.txid, ph, tip, if by_timer { " and 16 blocks of height timers" } else { "" })); } }
 			let chosen = self.pick_mempool(net);
 			if chosen.is_empty() { break; }
 			self.connect(net, chosen, "drain:mine");
@@ -355,7 +391,7 @@ impl Ctx {
 		let mut left_unbumpable = false;
 		for (x, ph) in self.revocable(&conf) { match spent.get(&x) {
 			None => { if self.unbumpable(&x) { self.classes.push("undrained:exempt-unbumpable".into()); left_unbumpable = true; continue; }
-				self.fail(format!("after draining, the cheater can spend revoked output {} ({} sat) of tx confirmed at {}: CSV {} matured at {}, tip {}, never claimed", self.name(&x), self.prevouts.get(&x).map(|o| o.value.to_sat()).unwrap_or(0), ph, CSV, ph + CSV, tip)); return Ok(()); },
+				self.fail_for(&x, format!("after draining, the cheater can spend revoked output {} ({} sat) of tx confirmed at {}: CSV {} matured at {}, tip {}, never claimed", self.name(&x), self.prevouts.get(&x).map(|o| o.value.to_sat()).unwrap_or(0), ph, CSV, ph + CSV, tip)); return Ok(()); },
 			Some((id, _)) => if !self.is_victim_tx(id) && !self.cand_ids.contains(id) { self.fail(format!("revoked output {} was spent by a transaction that is neither the victim's nor a known second-stage transaction", self.name(&x))); },
 		} }
 		let mine: Vec<Transaction> = { let mut seen = BTreeSet::new(); self.bcast.iter().map(|(_, t)| t).filter(|t| conf.contains_key(&t.compute_txid()) && seen.insert(t.compute_txid())).cloned().collect() };
@@ -370,7 +406,12 @@ impl Ctx {
 		if to_remote_swept != my_to_remote { self.fail(format!("victim's own to_remote {} not reported spendable (got {})", my_to_remote, to_remote_swept)); }
 		let bals = match node.chain_monitor.chain_monitor.get_monitor(self.chan_id) { Ok(mon) => mon.get_claimable_balances(), Err(_) => vec![] };
 		let left: Vec<&Balance> = bals.iter().filter(|b| !matches!(b, Balance::MaybePreimageClaimableHTLC { .. })).collect();
-		if !left.is_empty() && !left_unbumpable { self.fail(format!("claimable balances do not drain after burial: {:?}", left)); }
+		if !left.is_empty() && !left_unbumpable {
+			// a balance left for an output whose claim was lost to KF-C06-1 is that finding's symptom (only if every unclaimed output is such an output)
+			let unclaimed: Vec<OutPoint> = self.revocable(&conf).into_iter().map(|(x, _)| x).filter(|x| !spent.contains_key(x)).collect();
+			let what = format!("claimable balances do not drain after burial: {:?}", left);
+			if !unclaimed.is_empty() && unclaimed.iter().all(|x| self.kf1.contains(x)) { self.fail(format!("{}: {}", KF1, what)); } else { self.fail(what); }
+		}
 		Ok(())
 	}
 }
@@ -458,6 +499,10 @@ fn justice_scenario(seed: u64, thorough: bool, index: u64) -> Result<Outcome, St
 	// ---- confirm the revoked commitment on the victim ---------------------------------------------------
 	if rng.chance(1, 3) { *net.nodes[victim].fee_estimator.sat_per_kw.lock().unwrap() = 253 + rng.below(3000) as u32; }
 	if reload == 1 { net.restart(victim).map_err(|e| format!("reload failed: {}", e))?; }
+	// delay: the cheater may wait until the HTLCs of the revoked state are close to (or past) their expiry — the victim's claims on
+	// offered HTLC outputs then fall into the "pinnable" aggregation cluster (cltv_expiry <= height + 12), apart from the to_local claim
+	let pre_gap = if rng.chance(1, 4) { rng.range(20, 45) as u32 } else { 0 };
+	if pre_gap > 0 { connect_blocks(&net.nodes[victim], pre_gap); }
 	net.nodes[victim].tx_broadcaster.txn_broadcasted.lock().unwrap().clear();
 	let _ = net.nodes[victim].chain_monitor.chain_monitor.get_and_clear_pending_events();
 	let mut prevouts: HashMap<OutPoint, TxOut> = HashMap::new();
@@ -468,7 +513,7 @@ fn justice_scenario(seed: u64, thorough: bool, index: u64) -> Result<Outcome, St
 	let outs_tok = list_or_dash(me.outs.iter().map(|(v, k)| format!("{}:{}", v, k)).collect(), ",");
 	let spends_of = |t: &Transaction| t.input.iter().filter(|i| i.previous_output.txid == revoked_txid).map(|i| i.previous_output.vout.to_string()).collect::<Vec<_>>().join("+");
 	let mut cx = Ctx { seed, style: format!("{:?}", style), chan_id, lax, disconnected_once: false, funding: revoked_tx.input[0].previous_output, revoked_txid, me: me.clone(), cand: cand.clone(), cand_ids,
-		prevouts, bcast: vec![], evicted: 0, last_issue: BTreeMap::new(), last_fee: BTreeMap::new(), spendable: BTreeMap::new(), to_remote: BTreeMap::new(), final_txs: BTreeSet::new(), max_conf: BTreeMap::new(), kf1: false, fork_id: 0,
+		prevouts, bcast: vec![], evicted: 0, last_issue: BTreeMap::new(), last_fee: BTreeMap::new(), spendable: BTreeMap::new(), to_remote: BTreeMap::new(), final_txs: BTreeSet::new(), max_conf: BTreeMap::new(), kf1: BTreeSet::new(), kf1_style: matches!(style, ConnectStyle::TransactionsFirstReorgsOnlyTip), issue_height_override: None, fork_id: 0,
 		stream: Stream::default(), oracle: vec![], soft: vec![], soft_kinds: BTreeSet::new(), classes: vec![], stale_seen: 0 };
 	hist_push(format!("{:?}: {} channel, revoked commitment {} ({} outputs: {}), {} second-stage txs held by the cheater, tip {}", style, if anchors { "anchor" } else { "legacy" }, me.n, me.outs.len(), outs_tok, cand.len(), net.nodes[victim].best_block_info().1));
 	// the chain model starts here: `chain <tip> <n> <outs> <every second-stage tx: the commitment outputs it spends>`
@@ -546,6 +591,7 @@ fn justice_scenario(seed: u64, thorough: bool, index: u64) -> Result<Outcome, St
 	let _ = close_height;
 	out.extra_classes = cx.classes.clone();
 	out.extra_classes.push(format!("style:{}", cx.style));
+	if pre_gap > 0 { out.extra_classes.push("delay:commitment-confirms-20-45-blocks-late".into()); }
 	if cx.stale_seen > 0 { out.extra_classes.push(format!("claims-of-unconfirmed-parent-seen:{}", cx.style)); }
 	out.oracle = cx.oracle.clone();
 	out.oracle.extend(cx.soft.iter().rev().cloned());
@@ -563,8 +609,8 @@ fn main() {
 	match args.model.as_str() {
 		"c06bump" => bump::run_bump(&mut rec, &mut rng, args.thorough, args.scale),
 		"c06justice" => {
-			silence_stdout();
-			let n = if args.thorough { 1200 } else { 132 } * args.scale;
+			if std::env::var("C06_LOG").is_err() { silence_stdout(); }
+			let n = if args.thorough { 1210 } else { 330 } * args.scale;
 			let only: Option<u64> = std::env::var("C06_ONLY").ok().and_then(|s| s.parse().ok());
 			for k in 0..n {
 				let s = rng.next();
